@@ -7,7 +7,8 @@
 From Coq Require Import List PArith ZArith Bool String.
 From SV Require Import SM.Store SM.StoreProofs SM.StoreCert SM.StoreCertProofs SM.StoreCopy SM.StoreCopyProofs
   SM.StoreExamples SM.KvAdd SM.KvAddProofs SM.StoreCopySrc SM.StoreCopySrcProofs SM.KvAddFresh SM.KvAddFreshProofs
-  SM.StoreCopyExport SM.StoreCopyExportProofs Gen.CopyCensus_gen Gen.CopyExportReads_gen.
+  SM.StoreCopyExport SM.StoreCopyExportProofs SM.OpPurity SM.OpPurityProofs
+  Gen.CopyCensus_gen Gen.CopyExportReads_gen Gen.C09OpCensus_gen.
 Import ListNotations.
 
 (** FRAME THEOREM.  If no mutable location is reachable both from [a] and from the roots [R] a mutator
@@ -217,3 +218,52 @@ Theorem c09_copy_export_wrong_source_refuted :
   export_broken ex_census ex_src_bad ex_reads = ["alpha"%string] /\
   ~ mobs_eq ex_mk ex_h (ex_h' 5%Z) (VRef 1%positive) (VRef 2%positive).
 Proof. exact copy_export_wrong_source_refuted. Qed.
+
+(** ROUND 2 — OPERATOR PURITY (Vec / Angle / Matrix).  [op_census_X] (Gen/C09OpCensus_gen.v) lists for every operator
+    method, as inherited by each concrete class, the origins of the objects it may write and return.  A run of a
+    method none of whose stores is tagged with an operand origin leaves EVERY pre-existing object observed unchanged
+    (both operands in particular) and returns only objects that did not exist before; a run of an in-place operator
+    leaves everything separated from the receiver unchanged. *)
+Theorem c09_pure_op_frame : forall slf ps h tr h' F',
+  closed h -> trun slf ps (h, []) tr (h', F') ->
+  (forall o, In o (map snd tr) -> is_operand o = false) ->
+  (forall a, alloc h a -> forall n, unfold n h' (VRef a) = unfold n h (VRef a)) /\
+  (forall r, In r F' -> h r = None).
+Proof. exact pure_op_frame. Qed.
+
+Theorem c09_inplace_op_frame : forall slf ps h tr h' F',
+  closed h -> alloc h slf -> trun slf ps (h, []) tr (h', F') ->
+  (forall o, In o (map snd tr) -> o = OSelf \/ is_operand o = false) ->
+  forall b, alloc h b -> sep h b [slf] -> forall n, unfold n h' (VRef b) = unfold n h (VRef b).
+Proof. exact inplace_op_frame. Qed.
+
+(** The same, from a census row: [row_writes_ok] + "the row lists every origin a run can write". *)
+Theorem c09_census_pure_op_frame : forall (r : oprow) slf ps h tr h' F',
+  op_kind r = OpPure -> row_writes_ok r = true ->
+  (forall o, In o (map snd tr) -> In o (op_writes r)) ->
+  closed h -> trun slf ps (h, []) tr (h', F') ->
+  (forall a, alloc h a -> forall n, unfold n h' (VRef a) = unfold n h (VRef a)) /\
+  (forall x, In x F' -> h x = None).
+Proof. exact census_pure_op_frame. Qed.
+
+Theorem c09_census_inplace_op_frame : forall (r : oprow) slf ps h tr h' F',
+  op_kind r = OpInplace -> row_writes_ok r = true ->
+  (forall o, In o (map snd tr) -> In o (op_writes r)) ->
+  closed h -> alloc h slf -> trun slf ps (h, []) tr (h', F') ->
+  forall b, alloc h b -> sep h b [slf] -> forall n, unfold n h' (VRef b) = unfold n h (VRef b).
+Proof. exact census_inplace_op_frame. Qed.
+
+(** Every pure-operator row of the generated census passes, for all three families at once. *)
+Theorem c09_all_ops_pure : ops_store_nothing_to_operands op_census_all = true ->
+  forall r, In r op_census_all -> op_kind r = OpPure -> forall o, In o (op_writes r) -> is_operand o = false.
+Proof.
+  unfold ops_store_nothing_to_operands. rewrite forallb_forall. intros H r Hr Hk.
+  apply writes_ok_pure; [exact Hk|]. apply H. apply filter_In. split; [exact Hr|]. rewrite Hk. reflexivity.
+Qed.
+
+(** What the census rejects is a real change of an operand. *)
+Theorem c09_operand_write_observable_refuted :
+  row_writes_ok (mkop "Vec.__add__" OpPure true [OParam] [OParam]) = false /\
+  exists h', trun 1%positive [2%positive] (op_h, []) [(MStore 2%positive [VAtom 3%Z], OParam)] (h', []) /\
+             unfold 1 h' (VRef 2%positive) <> unfold 1 op_h (VRef 2%positive).
+Proof. exact operand_write_observable. Qed.
